@@ -37,6 +37,7 @@ class Budget(BaseException):
 # current engine (one per process; harnesses run single-threaded)
 # ----------------------------------------------------------------------------
 _E = None
+_CROSS_N = 0          # per-process counter of deciding queries (cross-solver sampling)
 
 
 def engine():
@@ -582,12 +583,48 @@ class Engine:
         r = s.check()
         self.stats['solver_s'] += time.time() - t
         self.stats['queries'] += 1
+        self._cross_check(s, r)
         if r == z3.sat:
             return 'sat', s.model()
         if r == z3.unsat:
             return 'unsat', None
         self.stats['unknown'] += 1
         return 'unknown', None
+
+    def _cross_check(self, solver, verdict):
+        """diff two solvers: every `cross_every`-th deciding query is re-decided by the cvc5 binary on the SMT-LIB dump"""
+        n = getattr(self, 'cross_every', 0)
+        if not n or verdict == z3.unknown:
+            return
+        global _CROSS_N
+        _CROSS_N += 1
+        if _CROSS_N % n:
+            return
+        import os
+        import shutil
+        import subprocess
+        import tempfile
+        exe = shutil.which('cvc5')
+        if not exe:
+            return
+        fd, path = tempfile.mkstemp(suffix='.smt2', prefix='symx_x_')
+        try:
+            with os.fdopen(fd, 'w') as f:
+                f.write('(set-logic ALL)\n' + solver.to_smt2())
+            try:
+                out = subprocess.run([exe, '--tlimit=8000', path], capture_output=True, text=True, timeout=12).stdout.strip()
+            except subprocess.TimeoutExpired:
+                out = 'timeout'
+        finally:
+            if os.path.exists(path):
+                os.unlink(path)
+        first = out.split('\n', 1)[0].strip() if out else ''
+        mine = 'sat' if verdict == z3.sat else 'unsat'
+        if first in ('sat', 'unsat'):
+            key = 'cross_agree' if first == mine else 'cross_disagree'
+        else:
+            key = 'cross_undecided'
+        self.stats[key] = self.stats.get(key, 0) + 1
 
     def sat_with(self, res, formula, timeout_ms=None):
         """Is path /\\ formula satisfiable? (reachability / trigger witness)"""
